@@ -33,7 +33,9 @@ BDates   == {<<2020, 1, 31>>, <<2020, 2, 29>>, <<2019, 12, 31>>, <<2021, 3, 1>>}
 BDtDates == {<<2020, 2, 29>>, <<2019, 12, 31>>}
 DateForms == {MkDate(p, c[1], c[2], c[3]) : p \in 1..3, c \in BDates}
 DtForms   == {MkDT(w[1], w[2][1], w[2][2], w[2][3], w[3], w[4]) :
-                w \in {v \in (1..7) \X BDtDates \X {T0, TEnd, TMid} \X Offsets : v[4] # NoOff => v[3] = TMid}}
+                w \in {v \in (1..7) \X BDtDates \X {T0, TEnd, TMid} \X Offsets :
+                          /\ (v[4] # NoOff => v[3] = TMid)
+                          /\ (v[3] = T0 => v[2] = <<2020, 2, 29>>) /\ (v[3] = TEnd => v[2] = <<2019, 12, 31>>)}}
 TimeForms == {MkTime(p, ms) : p \in 4..7, ms \in {T0, TEnd, TMid, T8}}
 BForms == DateForms \cup DtForms \cup TimeForms
 
@@ -42,14 +44,14 @@ ModelCases(z) == {Ar(x, op, Qty(a, u)) : x \in BForms, op \in Ops, u \in ModelUn
 
 (***************************** the quick tier *****************************)
 UnitAmounts ==
-  {<<u, a>> : u \in Kw1Units, a \in Amounts} \cup {<<u, a>> : u \in KwNUnits, a \in FewAmounts}
-  \cup {<<u, a>> : u \in UcumUnits, a \in UcumAmounts} \cup {<<u, a>> : u \in {"mg", "kg"}, a \in {0, 1000}}
+  {<<u, a>> : u \in Kw1Units, a \in Amounts} \cup {<<u, a>> : u \in KwNUnits, a \in {1000, 25000, 1500, -13000}}
+  \cup {<<u, a>> : u \in UcumUnits, a \in {1000, -1000}} \cup {<<"mg", 1000>>, <<"kg", 0>>, <<"cm", -1000>>}
 CrossCases(z) == {Ar(x, op, Qty(ua[2], ua[1])) : x \in BForms, op \in Ops, ua \in UnitAmounts}
 
 (* calendar sweep: Date at day precision over the marked days of the cycle and the edges *)
 DateUnitAmounts ==
-  {<<u, a>> : u \in {v \in Kw1Units : RankOf(v) \in DateRanks}, a \in Amounts}
-  \cup {<<u, a>> : u \in {v \in KwNUnits : RankOf(v) \in DateRanks}, a \in {1000, 13000, -1000}}
+  {<<u, a>> : u \in {v \in Kw1Units : RankOf(v) \in DateRanks}, a \in {0, 1000, 11000, 12000, 13000, 365000, 366000, 1000000, 1500, -1000, -13000}}
+  \cup {<<u, a>> : u \in {v \in KwNUnits : RankOf(v) \in DateRanks}, a \in {1000, -1000}}
 SweepDays == CycleDays \cup EdgeDays
 DateSweep(z) == {Ar(MkDate(3, c[1], c[2], c[3]), op, Qty(ua[2], ua[1])) : c \in SweepDays, op \in Ops, ua \in DateUnitAmounts}
 MonthSweep(z) == {Ar(MkDate(2, ym[1], ym[2], 1), op, Qty(a, u)) : ym \in CycleMonths, op \in Ops, u \in {"month", "days"}, a \in Amounts}
@@ -57,9 +59,8 @@ DtSweep(z) == {Ar(MkDT(6, c[1], c[2], c[3], TMid, [tz |-> TRUE, off |-> 330]), o
               c \in SweepDays, op \in Ops, u \in {"year", "months", "day"}, a \in {1000, 12000, 13000, 365000, -1000}}
 
 InvCases(z) == {Inv(x, op, Qty(a, u)) : x \in BForms, op \in Ops, u \in Kw1Units, a \in {1000, 24000, 25000, 1500, -1000}}
-CmpPairs == {<<0, 1000>>, <<23000, 24000>>, <<24000, 25000>>, <<59000, 60000>>, <<60000, 61000>>, <<365000, 366000>>,
-             <<-1000, 0>>, <<1000, 1500>>, <<-13000, -1000>>}
-CmpOpPairs == {<<"+", pr>> : pr \in CmpPairs} \cup {<<"-", pr>> : pr \in {<<0, 1000>>, <<24000, 25000>>, <<60000, 61000>>}}
+CmpPairs == {<<0, 1000>>, <<23000, 24000>>, <<59000, 60000>>, <<365000, 366000>>, <<-1000, 0>>, <<-13000, -1000>>}
+CmpOpPairs == {<<"+", pr>> : pr \in CmpPairs} \cup {<<"-", pr>> : pr \in {<<0, 1000>>, <<24000, 25000>>}}
 CmpCases(z) == {Cmp(x, op[1], Qty(op[2][1], u), Qty(op[2][2], u)) : x \in BForms, u \in Kw1Units, op \in CmpOpPairs}
 
 QQUnitPairs ==
